@@ -421,7 +421,7 @@ func (Engine) Shrink(sci interface{}) []interface{} {
 
 func (Engine) Describe() harness.EngineInfo {
 	return harness.EngineInfo{
-		Rule:        "session = preamble + 3-14 seeded statements (assignments, bare expressions incl. None-valued, if/else, for, while, def with default, class with method, try/except/finally, decorated def, multi-line brackets incl. a blank line inside, triple-quoted strings with a blank line inside, backslash continuation, ';'-joined statements, comments, trailing comments) with indent width 2/4/8/tab, extra blank lines between statements, and injected faults: single-line syntax errors, a syntax error inside a block, runtime errors after and before a side effect; every statement carries tk(i, value) side-effect markers. Lines are fed one per event, a blank line after every multi-line statement. distinct = distinct sessions (all physical lines); non-trivial = at least one multi-line statement",
+		Rule:        "session = preamble + 3-14 seeded statements (assignments, bare expressions incl. None-valued, if/else, for, while, def with default, class with method, try/except/finally, decorated def, multi-line brackets incl. a blank line inside, triple-quoted strings with a blank line inside, backslash continuation, single-quoted strings continued with backslash-newline, an embedder callable feed(line) that types complete lines into the same REPL while a multi-line statement executes, ';'-joined statements, comments, trailing comments) with indent width 2/4/8/tab, extra blank lines between statements, and injected faults: single-line syntax errors (incl. lines whose own text holds the wording of the errors that mean 'incomplete'), a syntax error inside a block, runtime errors after and before a side effect; every statement carries tk(i, value) side-effect markers. Lines are fed one per event, a blank line after every multi-line statement. distinct = distinct sessions (all physical lines); non-trivial = at least one multi-line statement",
 		Real:        []string{"repl.REPL.Run (continuation state machine)", "repl/cli.RunREPL with the line-editing library's non-terminal reader (second pass: the same lines through file descriptors 0/1)", "parser lexer interactive mode", "compile single mode", "vm PRINT_EXPR", "py.TracebackDump"},
 		Stubbed:     []string{"the terminal: repl.UI implemented by a recorder (SetPrompt / Print); for the front-end pass stdin = a pipe holding the lines, stdout = a scratch file, the history file = absent on a read-only simulated file system", "os.Stderr (tracebacks) -> discarded", "reference session: the same statements compiled one by one in exec mode (bare expressions in eval mode) in a fresh context of the same build"},
 		Assumptions: []string{"a blank line is also fed after a compound statement written on several lines only; single-line statements execute at their own line", "between the last line of a multi-line statement and its terminating blank line either prompt is accepted", "traceback text on stderr is not inspected; a runtime error must only leave the session usable and its state equal to the reference's"},
